@@ -110,8 +110,27 @@ def evaluate__parenthesized_expression(self: XPathToken, context: ta.ContextType
 
             if any(x.symbol == '?' and not x for x in tokens):
                 func.check_arguments_number(len(tokens))
+                # The fixed arguments are evaluated now, in the context of the partial application
+                arguments = [
+                    tk if tk.symbol == '?' and not tk else
+                    ValueToken(self.parser, value=tk.evaluate(copy(context)))
+                    for tk in tokens
+                ]
+                if func.label in ('partial function', 'inline partial function'):
+                    # the arguments fill the placeholders of the partial function, in order
+                    args_iter = iter(arguments)
+                    arguments = [
+                        next(args_iter) if tk.symbol == '?' and not tk else tk
+                        for tk in func
+                    ]
+
                 func = copy(func)
-                func._items = list(tokens)
+                if func.label == 'partial function':
+                    # the copy must not keep the methods bound to the original partial function
+                    for name in ('evaluate', 'select', '_partial_evaluate', '_partial_select'):
+                        func.__dict__.pop(name, None)
+                    func.label = 'function'
+                func._items = arguments
                 func.to_partial_function()
                 return func
 
